@@ -517,10 +517,13 @@ impl ViCut {
 				self.current_buffer().set_cursor_clamp(false);
 				for _ in 0..repeat {
 					let cmds = cmds.clone();
+					// Like the typed session, its replay knows where it began: a ctrl-w stops there
+					self.current_buffer().mark_insert_mode_start_pos();
 					for cmd in cmds {
 						self.current_buffer().exec_cmd(cmd)?
 					}
 				}
+				self.current_buffer().clear_insert_mode_start_pos();
 				let should_clamp = self.mode.clamp_cursor();
 				self.current_buffer().set_cursor_clamp(should_clamp);
 			}
